@@ -10,7 +10,7 @@ from vlib.targets import Boom, norm_exc
 PROPERTY = 'C03'
 EVALUATIONS_KEYS = ['programs', 'incremental_runs']
 LEVEL = 'exploration'
-RULE = ('(a) exhaustive: every well-formed operator sequence of length <=2 (quick) / <=3 (thorough) over 35 parameter-instantiated operators x 7 input '
+RULE = ('(a) exhaustive: every well-formed operator sequence of length <=2 (quick) / <=3 (thorough) over 50 parameter-instantiated operators x 7 input '
         'classes (empty, singleton, ints, ints+exception objects, nested lists, None/falsy elements ending in None, nested lists of None), consumed by iteration / collect / drain / a second iteration of the same Stream object after a complete or abandoned first one; (b) seeded random programs '
         'of length <=7 on lists up to 40; (c) one-to-one chains on an instrumented unbounded source: 0 pulls at construction, pulls <= k + sum of '
         'look-ahead after taking k outputs. non-trivial = program of >=2 operators whose reference output is non-empty or ends in an exception; '
